@@ -1,0 +1,70 @@
+//! Verification hooks: a process-global event log, compiled only with
+//! `--cfg walrus_verif` and recording only while enabled.
+//!
+//! Events carry a global sequence number taken under the log's lock (so the
+//! order of the log is the order in which the hooks fired) and a small
+//! per-thread number; there are no wall-clock timestamps.
+
+use std::cell::Cell;
+use std::sync::atomic::{AtomicBool, AtomicU64, Ordering};
+use std::sync::Mutex;
+
+/// One hook event.
+#[derive(Debug, Clone)]
+pub struct Event {
+    /// Position in the global order.
+    pub seq: u64,
+    /// Small integer naming the thread that emitted the event.
+    pub thread: u64,
+    /// Event name.
+    pub name: &'static str,
+    /// Free-form detail (section name, entity kind, phase ...).
+    pub detail: String,
+    /// Numeric detail (index, id ...), or -1.
+    pub num: i64,
+    /// Second numeric detail, or -1.
+    pub num2: i64,
+}
+
+static ENABLED: AtomicBool = AtomicBool::new(false);
+static NEXT_THREAD: AtomicU64 = AtomicU64::new(0);
+static LOG: Mutex<Vec<Event>> = Mutex::new(Vec::new());
+
+thread_local! {
+    static THREAD: Cell<u64> = Cell::new(u64::MAX);
+}
+
+/// Start or stop recording. Starting clears the log.
+pub fn enable(on: bool) {
+    if on {
+        LOG.lock().unwrap_or_else(|e| e.into_inner()).clear();
+    }
+    ENABLED.store(on, Ordering::SeqCst);
+}
+
+/// Take the events recorded so far.
+pub fn drain() -> Vec<Event> {
+    std::mem::take(&mut *LOG.lock().unwrap_or_else(|e| e.into_inner()))
+}
+
+pub(crate) fn emit(name: &'static str, detail: &str, num: i64, num2: i64) {
+    if !ENABLED.load(Ordering::Relaxed) {
+        return;
+    }
+    let thread = THREAD.with(|t| {
+        if t.get() == u64::MAX {
+            t.set(NEXT_THREAD.fetch_add(1, Ordering::SeqCst));
+        }
+        t.get()
+    });
+    let mut log = LOG.lock().unwrap_or_else(|e| e.into_inner());
+    let seq = log.len() as u64;
+    log.push(Event {
+        seq,
+        thread,
+        name,
+        detail: detail.to_string(),
+        num,
+        num2,
+    });
+}
